@@ -248,6 +248,19 @@ def reject_whole(r, F):
               "push_slice copies / records a slice without both size tests guarding it", ln=ps.lo)
 
 
+def accepted_is_recorded(r, F):
+    """Buffer::push / push_slice answer `true` only after recording the entry: every path that returns true passed entry_infos.push (an acknowledged entry that is
+    not recorded is written to disk but never indexed)"""
+    for name in ("push", "push_slice"):
+        fn = F.method(BUF + "::Buffer", name)
+        rec = [b.idx for b in fn.calls_to(r"Vec::<T, A>::push$") if any("BufferEntryInfo" in (fn.local_ty(a.place.local) or "") for a in b.term.args if a.place is not None)]
+        false_ret = [b.idx for b in fn.blocks if not b.cleanup for s_ in b.stmts if s_.k == "assign" and s_.place.local == 0 and s_.place.is_local() and s_.rv.k == "use" and s_.rv.ops[0].is_const() and s_.rv.ops[0].const_val() == 0]
+        true_ret = [b.idx for b in fn.blocks if not b.cleanup for s_ in b.stmts if s_.k == "assign" and s_.place.local == 0 and s_.place.is_local() and s_.rv.k == "use" and s_.rv.ops[0].is_const() and s_.rv.ops[0].const_val() == 1]
+        ok = bool(rec) and bool(true_ret) and fn.must_pass(0, rec + false_ret)
+        r.require(ok, fn, "%s: `true` only after recording the entry" % name, "every path returning true passes entry_infos.push", "Buffer::%s can answer `accepted` without recording the entry in entry_infos: "
+                  "its bytes are flushed but the entry is never indexed, while the caller keeps / drops its write-queue reference as for a stored entry" % name, ln=fn.lo)
+
+
 def header_lengths(r, F):
     fn = F.method(BUF + "::Buffer", "push")
     hs = [(b.idx, i, s) for b in fn.blocks if not b.cleanup for i, s in enumerate(b.stmts) if s.k == "assign" and s.rv.k == "agg" and (s.rv.j.get("adt") or "").endswith("serde::EntryHeader")]
@@ -326,6 +339,7 @@ def run(chk, F):
     chk.run_rule("C08.reject-whole", "an entry is recorded only after a successful serialization and within max_entry_size; push_slice tests sizes before copying", 5, reject_whole, F)
     from rules import C09
     chk.run_rule("C08.size-limit-siblings", "push and push_slice agree on the max_entry_size comparison", 1, C09.size_limit_siblings, F)
+    chk.run_rule("C08.accepted-is-recorded", "Buffer::push / push_slice return true only after recording the entry", 2, accepted_is_recorded, F)
     chk.run_rule("C08.header-lengths", "the header records the serializer's lengths, the payload checksum and the caller's hash/sequence/tag; entry len = header + key + value", 7, header_lengths, F)
     chk.run_rule("C08.decode-bounds", "deserialize rejects a buffer only when strictly shorter than the recorded lengths; the test guards every slice", 3, decode_bounds, F)
     chk.run_rule("C08.size-limit", "a WriteZero io error becomes ErrorKind::BufferSizeLimit", 1, size_limit, F)
